@@ -294,3 +294,34 @@ def run(ctx):
                      "an emission is NOT conditioned on the vAMM being open: one already-closed vAMM aborts the whole shutdown"))
     except KeyError as e:
         ctx.lost("R14.5", str(e))
+
+
+    # ---------------------------------------------------------------- R14.6
+    # the emergency shutdown is sent by the insurance fund, which is not the vAMM's owner: the vAMM's SetOpen must have
+    # a success path for a sender that is its configured insurance fund and NOT its owner (an `&&` where the role test
+    # needs `||` would demand both roles at once and every shutdown would be refused)
+    ctx.rule("R14.6", "the vAMM accepts SetOpen from its configured insurance fund alone (a success alternative with owner test false and sender == config.insurance_fund)", 1)
+    try:
+        so6 = arms.Arm(ix, VAMM, "SetOpen")
+        found = False
+        n_alt = 0
+        for (q, alt) in so6.alternatives():
+            n_alt += 1
+            admin_false = any(o is False and (("is_admin" in sym.show(at, 3)) or ("assert_admin" in sym.show(at, 3))) for (at, o) in alt)
+            fund_true = False
+            for (at, o) in alt:
+                a2, o2 = at, o
+                while tag(a2) == "op" and payload(a2)[0] == "not" and o2 in (True, False):
+                    a2, o2 = kids(a2)[0], (not o2)
+                if tag(a2) == "op" and payload(a2)[0] in ("eq", "ne") and len(kids(a2)) == 2:
+                    is_eq = (payload(a2)[0] == "eq") == bool(o2)
+                    ks = [ix.inline(k) for k in kids(a2)]
+                    if is_eq and so6.sender in ks and any(guards.is_field_of_item(ix, k, VAMM, "margined_vamm:config", "insurance_fund") for k in ks):
+                        fund_true = True
+            if admin_false and fund_true:
+                found = True
+        ctx.inst("R14.6", "fund-alone-may-close:SetOpen", found, so6.fn.where(),
+                 "%d success alternatives; %s" % (n_alt, "one of them has the owner test false and info.sender == config.insurance_fund" if found else
+                    "NONE succeeds for a sender that is the insurance fund but not the owner: ShutdownVamms would always be refused"))
+    except KeyError as e:
+        ctx.lost("R14.6", str(e))
